@@ -4,6 +4,7 @@ import MosnVerif.Model.StreamOnce
 import MosnVerif.Model.PoolMux
 import MosnVerif.Model.PoolH2
 import MosnVerif.Drive.C09Win
+import MosnVerif.Drive.C09MxWin
 namespace MosnVerif.Drive.C09
 open MosnVerif.Drive MosnVerif.Model.Pool
 
@@ -314,6 +315,8 @@ def run (caseToks impl : List String) : String :=
   | ["once", threads, sched] => once threads sched impl
   | ["pool", kind, mc, mr, ops] => pool kind mc mr ops impl
   | ["win", kind, mc, mr, ops] => C09Win.win kind mc mr ops impl
+  | ["mxw", slots, mr, ops] => C09MxWin.runKind false slots mr ops impl
+  | ["h2w", mr, ops] => C09MxWin.runKind true "1" mr ops impl
   | ["conc", _, _, mr, _, _, _] => conc mr impl
   | _ => "E E unknown-kind"
 
